@@ -119,6 +119,9 @@ def real_signal(ctx):
 
         increment_running = increment_completed = increment_failed = increment_total
 
+    import detsched
+    import uberjob._execution.run_function_on_graph as rfg_mod
+    sites = detsched.Sites(rfg_mod)
     rng = ctx.rng
     for trial in range(ctx.n(12, 80)):
         ncalls = rng.randrange(3, 9)
@@ -151,6 +154,20 @@ def real_signal(ctx):
         obs = Obs()
         before = set(threading.enumerate())
         outcome = None
+        tstop = []
+
+        def tracer(frame, event, arg):
+            if frame.f_code.co_filename != sites.file or frame.f_code.co_name != "run_function_on_graph":
+                return None
+            return ltrace
+
+        def ltrace(frame, event, arg):
+            if event == "line" and frame.f_lineno == sites.lines["setstop"] + 1 and not tstop:
+                with lock:     # the line after `stop = True`: the flag is set; no call function may begin after this
+                    tstop.append(len(log))
+            return ltrace
+        import sys
+        sys.settrace(tracer)
         try:
             try:
                 uberjob.run(p, output=calls, max_workers=workers, progress=Progress(lambda: obs))
@@ -161,24 +178,31 @@ def real_signal(ctx):
                 outcome = "other:%r" % (e,)
         except KeyboardInterrupt:
             outcome = "interrupted-late"
-        t_ret = time.monotonic()
+        finally:
+            sys.settrace(None)
         ctx.case(("real-signal", ncalls, workers, k))
-        case = {"ncalls": ncalls, "workers": workers, "k": k, "outcome": outcome, "log": [(a, b) for a, b, _ in log]}
-        starts = [i for kind, i, _ in log if kind == "start"]
-        ends = [i for kind, i, _ in log if kind == "end"]
-        if outcome != "interrupted":
+        with lock:
+            snap = list(log)
+        case = {"ncalls": ncalls, "workers": workers, "k": k, "outcome": outcome, "log": [(a, b) for a, b, _ in snap],
+                "log_index_when_stop_was_set": tstop}
+        starts = [i for kind, i, _ in snap if kind == "start"]
+        ends = [i for kind, i, _ in snap if kind == "end"]
+        if outcome == "returned" and len(starts) == ncalls:
+            ctx.count("signal_arrived_after_completion", 1)
+        elif outcome != "interrupted":
             ctx.fail("signal:not-propagated", "KeyboardInterrupt did not propagate out of run: %s" % outcome, case)
         time.sleep(0.05)
         with lock:
             starts2 = [i for kind, i, _ in log if kind == "start"]
-            ends2 = [i for kind, i, _ in log if kind == "end"]
-        if sorted(starts2) != sorted(ends) or len(starts2) != len(starts):
+        if sorted(starts) != sorted(ends) or len(starts2) != len(starts):
             ctx.fail("signal:running-after-return", "calls still running or started after run raised", case)
-        after_sig = [i for kind, i, t in log if kind == "start" and state["sig"] and t > state["sig"]]
-        if len(after_sig) > workers:
-            ctx.fail("signal:late-starts", "%d calls started after the signal with max_workers=%d" % (len(after_sig), workers), case)
-        if len(starts) == ncalls and ncalls - k - 1 > workers:
-            ctx.fail("signal:not-stopped", "every call ran although the run was interrupted at call %d" % k, case)
+        ctx.count("real_signal_stop_observed", bool(tstop))
+        ctx.count("real_signal_outcome", outcome)
+        if tstop:
+            # a worker that read stop=False just before the handler set it may still begin its call: at most one per worker
+            after = [i for kind, i, _ in snap[tstop[0]:] if kind == "start"]
+            if len(after) > workers:
+                ctx.fail("signal:late-starts", "%d calls started after the handler set stop (max_workers=%d)" % (len(after), workers), case)
         if obs.entered != 1 or obs.exited != 1:
             ctx.fail("signal:observer", "observer entered %d / exited %d times" % (obs.entered, obs.exited), case)
         deadline = time.time() + 2
